@@ -433,7 +433,8 @@ def random_split(I, key, num=2):
     kt = I.to_u(key)
     f = I.ctx.fn("split", U, z3.IntSort(), z3.IntSort(), U)
     if isinstance(num, int):
-        return tuple(UVal(f(kt, z3.IntVal(num), z3.IntVal(i)), "key") for i in range(num))
+        # an ARRAY of `num` keys (it unpacks like a tuple and maps like a batch)
+        return Stacked(num, lambda i: UVal(f(kt, z3.IntVal(num), i), "key"), tag="split")
     n = zint(num)
     return Stacked(n, lambda i: UVal(f(kt, n, i), "key"), tag="split")
 
